@@ -136,6 +136,9 @@ def gen_reset(rng: random.Random, tier: str) -> dict:
         "reset_after": rng.choice(["complete", "complete", "paused"]),
         "pause_at": rng.randrange(0, max(1, n_events)),
         "second_run_control": rng.random() < 0.5,
+        # user-level clean-up between the first run and reset(): cancel some of the (old) pre-run event
+        # objects, e.g. a watchdog that already fired; the replay must not be affected
+        "cancel_after_run": sorted(rng.sample(range(len(prog["pre"])), rng.randrange(0, min(3, len(prog["pre"])) + 1))) if prog["pre"] and rng.random() < 0.5 else [],
     }
 
 
@@ -443,6 +446,9 @@ def run_reset(case: dict) -> Result:
             else:
                 sim.run()
             n1 = len(rr.log)
+            for i in case.get("cancel_after_run") or []:
+                if i in rr.events:
+                    rr.events[i].cancel()
             sim.control.reset()
             sim.run()
             while sim.control.is_paused:
@@ -464,7 +470,9 @@ def run_reset(case: dict) -> Result:
         has_cancel = any(s.get("cancel_pre") for s in pre)
         has_hooks = any(s.get("hooks") for s in pre)
         shape = "plain"
-        if has_cancel and not has_hooks:
+        if case.get("cancel_after_run"):
+            shape = "pre-run-event-cancelled-after-first-run"
+        elif has_cancel and not has_hooks:
             shape = "pre-run-cancelled-event"
         elif has_hooks and not has_cancel:
             shape = "pre-run-event-with-completion-hooks"
